@@ -4,15 +4,18 @@ Two halves:
  * argument contracts (c09_args.py, table transcribed from the headers' \\expect{ERR_...} clauses): each documented
    domain violation must give the documented error class, no crash, no unauthenticated plaintext/key in the output;
  * allocation-failure enumeration (this file): with the LD_PRELOADed interposer (drv/wrapalloc.c) on the Release
-   build, for every valid call of the table in secretcalls.py the k-th allocation made by bee2 fails, k = 1, 2, ...
-   until the call completes without reaching the fault; each faulted call must return an error (not ERR_OK), must
-   not crash (executed in a forked child, so a crash is observed, not suffered) and must leave no allocation behind.
+   build, for every valid call of the tables in secretcalls.py (functions taking a secret) and publiccalls.py (functions
+   taking none) the k-th allocation made by bee2 fails, k = 1, 2, ... until the call completes without reaching the
+   fault; each faulted call must return an error (not ERR_OK), must not crash (executed in a forked child, so a crash
+   is observed, not suffered) and must leave no allocation behind.
 """
 import importlib, random
 from .. import wa as walib
 from ..core import Harness
 from . import secretcalls as sc
+from . import publiccalls as pc
 
+TABLES = {"secret": sc, "public": pc}
 LEVEL = "fault_enumeration"
 ERR_OK = 0
 
@@ -32,6 +35,7 @@ def unit_faults(ctx):
     P = ctx.params
     reported = set()
     depth = {}
+    table = TABLES[P.get("table", "secret")]
 
     def viol(key, what, det):
         if key not in reported:
@@ -44,7 +48,7 @@ def unit_faults(ctx):
                 s = rng.getrandbits(48)
                 desc = {"fn": name, "size": size, "seed": s}
                 r = random.Random(s)
-                call = sc.BUILDERS[name](lib, r, size)
+                call = table.BUILDERS[name](lib, r, size)
                 fn = name.split(":")[0]
                 k = 0
                 while True:
@@ -83,17 +87,22 @@ def unit_faults(ctx):
 
 def fault_jobs(tier, scale=1.0):
     q = tier == "quick"
-    names = list(sc.BUILDERS)
-    light = [n for n in names if n not in sc.HEAVY]
-    heavy = [n for n in names if n in sc.HEAVY]
     js = []
-    for i in range(6):
-        js.append({"cfg": "rel64", "unit": "c09:unit_faults",
-                   "params": {"functions": light[i::6], "sizes": [16, 40] if q else [1, 16, 17, 40, 100, 300], "reps": 3 if q else 10}})
-    for i in range(6):
-        if heavy[i::6]:
-            js.append({"cfg": "rel64", "unit": "c09:unit_faults",
-                       "params": {"functions": heavy[i::6], "sizes": [32], "reps": 2 if q else 8}})
+    for tname, nlight, nheavy in (("secret", 6, 12), ("public", 2, 6)):
+        tab = TABLES[tname]
+        names = list(tab.BUILDERS)
+        light = [n for n in names if n not in tab.HEAVY]
+        heavy = [n for n in names if n in tab.HEAVY]
+        extra = {"table": tname} if tname != "secret" else {}
+        for i in range(nlight):
+            if light[i::nlight]:
+                js.append({"cfg": "rel64", "unit": "c09:unit_faults",
+                           "params": dict({"functions": light[i::nlight], "sizes": [16, 40] if q else [1, 16, 17, 40, 100, 300],
+                                           "reps": 3 if q else 10}, **extra)})
+        for i in range(nheavy):
+            if heavy[i::nheavy]:
+                js.append({"cfg": "rel64", "unit": "c09:unit_faults",
+                           "params": dict({"functions": heavy[i::nheavy], "sizes": [32], "reps": 2 if q else 8}, **extra)})
     return js
 
 
